@@ -1,0 +1,15 @@
+//go:build verif
+
+package cmsys
+
+// Export of the unexported FNV hash family for the verification drivers (add-only, build tag verif).
+
+func VerifFnv32Bytes(b []byte, h Fnv32_t) Fnv32_t      { return fnv32Bytes(b, h) }
+func VerifFnv1a32Bytes(b []byte, h Fnv32_t) Fnv32_t    { return fnv1a32Bytes(b, h) }
+func VerifFnv1a32StrCase(b []byte, h Fnv32_t) Fnv32_t  { return fnv1a32StrCase(b, h) }
+func VerifFnv1a32DBCSCase(b []byte, h Fnv32_t) Fnv32_t { return fnv1a32DBCSCase(b, h) }
+func VerifFnv64Bytes(b []byte, h Fnv64_t) Fnv64_t      { return fnv64Bytes(b, h) }
+func VerifFnv1a64Bytes(b []byte, h Fnv64_t) Fnv64_t    { return fnv1a64Bytes(b, h) }
+func VerifFnv1a64StrCase(b []byte, h Fnv64_t) Fnv64_t  { return fnv1a64StrCase(b, h) }
+func VerifFnv1a64DBCSCase(b []byte, h Fnv64_t) Fnv64_t { return fnv1a64DBCSCase(b, h) }
+func VerifFnv1aByte(c byte, h Fnv32_t) Fnv32_t         { return fnv1aByte(c, h) }
